@@ -35,10 +35,12 @@ type Mesh struct {
 	Kind  string
 	ByIP  map[netip.Addr]int
 
-	mu      sync.Mutex
-	Probes  []ProbeEvent
-	probeSeq uint64
-	stderrs []string
+	mu     sync.Mutex
+	Probes []ProbeEvent
+	// AutoReply makes probe handlers answer requests with a routed reply.
+	AutoReply bool
+	probeSeq  uint64
+	stderrs   []string
 }
 
 // ProbeEvent is one probe ping handed to a node's upper handler.
@@ -275,6 +277,14 @@ func Build(e *core.Env, o Options) *Mesh {
 	}
 	simnet.Wait()
 	e.Sample("mesh %s n=%d edges=%v", kind, n, edges)
+	e.Logf("mesh %s n=%d edges=%v", kind, n, edges)
+	for i, nd := range ms.Nodes {
+		var ls []string
+		for _, l := range nd.Peering.GetLinks() {
+			ls = append(ls, fmt.Sprintf("%d>%d", l.SwitchLabel(), ms.ByIP[l.Peer()]))
+		}
+		e.Logf(" n%d %s labels %v", i, nd.IP, ls)
+	}
 	return ms
 }
 
@@ -290,13 +300,25 @@ type probeHandler struct {
 func (h *probeHandler) Type() string                 { return ProbeType }
 func (h *probeHandler) Clean(w *mgr.WorkerCtx) error { return nil }
 func (h *probeHandler) Handle(w *mgr.WorkerCtx, f frame.Frame, hdr *router.PingHeader, data []byte) error {
-	h.ms.mu.Lock()
-	h.ms.Probes = append(h.ms.Probes, ProbeEvent{
+	ev := ProbeEvent{
 		At: h.at, Src: f.SrcIP(), Dst: f.DstIP(), Reply: hdr.FollowUp, Payload: string(data),
 		Switch: append([]byte(nil), f.SwitchBlock()...),
-	})
+	}
+	h.ms.mu.Lock()
+	h.ms.Probes = append(h.ms.Probes, ev)
+	reply := h.ms.AutoReply && !hdr.FollowUp
 	h.ms.mu.Unlock()
 	f.ReturnToPool()
+	if reply {
+		nd := h.ms.Nodes[h.at]
+		rf, err := h.ms.NewProbeFrame(nd, ev.Src, nil, nil, true, strings.ToLower(ev.Payload)+"/reply")
+		if err != nil {
+			return nil
+		}
+		if err := nd.Router.RouteFrame(rf); err != nil {
+			rf.ReturnToPool()
+		}
+	}
 	return nil
 }
 
